@@ -36,6 +36,9 @@ def generate(ctx):
     rng = ctx.rng
     if ctx.shard in ctx.pick((0,), (0, 1, 2)):
         yield "huge_level", dict(k=1, depth=12 if ctx.quick() else 13, drop=rng.randrange(16))
+    if ctx.shard in ctx.pick((1, 2), (1, 2, 3, 4)):
+        # a single walk followed for thousands of steps (self-loop, 2-cycle, a longer cycle of out-degree-1 vertices)
+        yield "deep_chain", dict(cycle=rng.choice(["A", "AC", "ACG", "AACT"]), depth=rng.choice([990, 1200, 3000, 10000]))
     for _ in range(ctx.pick(250, 2500)):
         # thin graphs, every root, depths far beyond the order: walks that end up circulating on cycles of out-degree-1
         # vertices, where consecutive breadth-first levels hold the same vertices with different multiplicities
@@ -142,6 +145,14 @@ def check_graph(ctx, case):
                 if back.kind != "ok" or not np.array_equal(np.asarray(back.value), acc):
                     ctx.fail("matrix-round-trip", "adjacency_matrix_to_accessor(accessor_to_adjacency_matrix(a)) != a (%s); %s" % (
                         back.describe() if back.kind != "ok" else "differs", where))
+                elif np.asarray(back.value).dtype.kind not in "iu":
+                    # "the identical accessor": an index table, usable wherever an accessor is
+                    ctx.fail("matrix-round-trip", "adjacency_matrix_to_accessor returned an accessor of dtype %s for a %s matrix; %s" % (
+                        np.asarray(back.value).dtype, np.asarray(arg).dtype, where))
+                elif dt is not None:
+                    again = monitored(dsw.accessor_to_latter_map, big, back.value)      # and it chains into the next conversion
+                    if again.kind != "ok" or _lm_norm(again.value) != want_lm:
+                        ctx.fail("matrix-round-trip", "the accessor converted back from a %s matrix does not convert on: %s; %s" % (dt, again.describe(), where))
                 # illegal matrices: one extra arc that is not a shift
                 for _ in range(ctx.pick(4, 8) if k <= 4 else 1):
                     u = rng.randrange(n)
@@ -305,6 +316,30 @@ def check_deep_leaves(ctx, case):
     ctx.done("deep_leaves", case, True)
 
 
+def check_deep_chain(ctx, case):
+    dsw = import_dsw()
+    cyc, d = case["cycle"], case["depth"]
+    k = max(2, len(cyc))
+    text = (cyc * (k + 2))
+    n = 4 ** k
+    acc = -np.ones((n, 4), dtype=int)
+    vs = []
+    for i in range(len(cyc)):
+        v = G.index_of(text[i:i + k])
+        w = G.index_of(text[i + 1:i + 1 + k])
+        acc[v, w % 4] = w
+        vs.append(v)
+    end = vs[d % len(cyc)]
+    lm = {v: [int(w) for w in acc[v] if w >= 0] for v in range(n) if (acc[v] >= 0).any()}
+    for name, kw in (("accessor", dict(accessor=acc)), ("latter map", dict(latter_map=lm))):
+        r = monitored(dsw.obtain_leaf_vertices, 10 ** 8, vs[0], d, **kw)
+        if r.kind != "ok" or [int(x) for x in np.asarray(r.value).reshape(-1).tolist()] != [end]:
+            ctx.fail("leaf-query", "obtain_leaf_vertices(%d, depth %d, %s) on the cycle %s: %s, expected the single end point [%d]" % (
+                vs[0], d, name, cyc, r.describe(), end))
+    ctx.cls("leaf-query|one walk followed for >= 990 steps")
+    ctx.done("deep_chain", case, True)
+
+
 def check_huge_level(ctx, case):
     """Leaf query whose intermediate breadth-first levels exceed a million vertices (order 1, one arc removed, depth 12-13)."""
     dsw = import_dsw()
@@ -334,7 +369,7 @@ def check_huge_level(ctx, case):
     ctx.done("huge_level", case, True)
 
 
-CHECKS = {"graph": check_graph, "huge_level": check_huge_level, "deep_leaves": check_deep_leaves}
+CHECKS = {"deep_chain": check_deep_chain, "graph": check_graph, "huge_level": check_huge_level, "deep_leaves": check_deep_leaves}
 
 
 def floors(agg, tier):
@@ -344,7 +379,7 @@ def floors(agg, tier):
                        ("leaf-query|live root", 1000), ("leaf-query|dead root", 200), ("k|5", 20),
                        ("hand-built map in arbitrary order", 500), ("converters repeated after their result was scrambled", 300), ("matrix layout|F", 200), ("matrix layout|T", 200), ("leaf-query|level beyond a million vertices", 1), ("illegal-matrix|re-wired rejected", 500),
                        ("earlier matrix re-read after a later conversion (k=5)", 20), ("leaf queries repeated after an in-place edit", 500), ("deep leaf queries on a thin graph", 2000),
-                       ("deep leaf level with the vertices and size of the previous level", 2000), ("matrix element type|int8", 100)):
+                       ("deep leaf level with the vertices and size of the previous level", 2000), ("matrix element type|int8", 100), ("leaf-query|one walk followed for >= 990 steps", 2)):
         if c.get(name, 0) < need:
             out.append("%s observed %d < %d" % (name, c.get(name, 0), need))
     return out
